@@ -276,3 +276,24 @@ def c14_10(ctx, r):
                     "ends without results.json, so neither the results recorded before the cancel nor the missing jobs are reported", "results recorded before the cancel are kept and jobs that never ran are reported as missing")
     if n < 2:
         raise AnalysisError("C14.10", f"{n} failing steps recognised in _handle_completion")
+
+
+@rule(P, "C14.11", "T6", "what is persisted about a submission is what is loaded: no validator of ClusterConfig rewrites a stored field (the canceled flag survives completion)", min_obligations=1)
+def c14_11(ctx, r):
+    """`cancel is final` holds across reloads only if is_canceled read back from cluster_config.json is the value written.  A field validator that
+    derives the flag from other fields (False once is_complete is set, say) makes every reload of a completed, canceled submission forget the
+    cancel: a later resubmit-jobs round passes the not-canceled gate and hands the never-run jobs to the HPC."""
+    from ..lib import validators_changing_value
+
+    cls = ctx.cls("ClusterConfig", "C14.11")
+    examined, bad = validators_changing_value(ctx, {"ClusterConfig"})
+    for f, n in bad:
+        r.bad(key_of(f, "validator rewrites a persisted field"), f.loc(n), f"the validator {f.short} returns `{ctx.src(n.value)}` instead of the value it was given: the field loaded from cluster_config.json differs from "
+              "the field written - a canceled flag can be dropped on reload, and later rounds submit again", "once a submission is marked canceled no process ever hands another batch to the HPC")
+    # no assignment hook either: is_canceled is an ordinary field
+    r.check("is_canceled" in cls.ann_fields, "ClusterConfig.is_canceled is a declared field", key_of_cls(cls, "is_canceled field"), f"{cls.module.relpath}:{cls.node.lineno}", "ClusterConfig.is_canceled is no longer a plain field")
+    r.ok(f"{examined} field validators of ClusterConfig examined")
+
+
+def key_of_cls(cls, what):
+    return f"{cls.name}::{what}"
